@@ -79,6 +79,81 @@ theorem guard_buf_advance_gen (cap l n : Nat) :
   apply decide_eq_decide.mpr
   rw [ite_one_zero_ne]
 
+/-! the library's own validity predicates (`aws_byte_buf_is_valid`, `aws_byte_cursor_is_valid`), as written -/
+
+/-- the address a model pointer stands for: NULL ↦ 0, a block ↦ anything non-zero -/
+def PtrOf (rid : Option Nat) (p : Nat) : Prop := p ≠ 0 ↔ rid.isSome = true
+
+/-- `Buf.isValid` of the model is `aws_byte_buf_is_valid` as written, for every non-NULL `buf` -/
+theorem bufIsValid_gen (b : Buf) (self p : Nat) (hs : self ≠ 0) (hp : PtrOf b.rid p) :
+    b.isValid = ByteBufFns.verif_valid_byte_buf self b.cap b.len p := by
+  unfold ByteBufFns.verif_valid_byte_buf Buf.isValid PtrOf at *
+  rw [Bool.eq_iff_iff]
+  simp only [decide_eq_true_eq, ite_one_zero_ne, Bool.or_eq_true, Bool.and_eq_true, beq_iff_eq]
+  cases hr : b.rid with
+  | none =>
+    have hp0 : p = 0 := by
+      by_cases h : p = 0
+      · exact h
+      · have := hp.mp h; simp [hr] at this
+    subst hp0
+    simp only [Option.isNone_none, Option.isSome_none, Bool.false_eq_true, and_false, or_false, and_true, ne_eq,
+      not_true_eq_false]
+    constructor
+    · rintro ⟨a, b'⟩
+      exact ⟨hs, Or.inl ⟨a, b'⟩⟩
+    · rintro ⟨_, (⟨a, b'⟩ | ⟨⟨a, _⟩, c⟩)⟩
+      · exact ⟨a, b'⟩
+      · omega
+  | some r =>
+    have hp1 : p ≠ 0 := hp.mpr (by simp [hr])
+    simp only [Option.isNone_some, Option.isSome_some, Bool.false_eq_true, and_false, false_or, and_true, ne_eq]
+    constructor
+    · rintro ⟨a, b'⟩
+      exact ⟨hs, Or.inr ⟨⟨a, b'⟩, Or.inr hp1⟩⟩
+    · rintro ⟨_, (⟨_, c⟩ | ⟨⟨a, b'⟩, _⟩)⟩
+      · exact absurd c hp1
+      · exact ⟨a, b'⟩
+
+/-- `Cur.isValid` of the model is `aws_byte_cursor_is_valid` as written, for every non-NULL `cursor` -/
+theorem curIsValid_gen (c : Cur) (self p : Nat) (hs : self ≠ 0) (hp : PtrOf c.rid p) :
+    c.isValid = ByteBufFns.verif_valid_byte_cursor self c.len p := by
+  unfold ByteBufFns.verif_valid_byte_cursor Cur.isValid PtrOf at *
+  rw [Bool.eq_iff_iff]
+  simp only [decide_eq_true_eq, ite_one_zero_ne, Bool.or_eq_true, Bool.and_eq_true, beq_iff_eq]
+  constructor
+  · rintro (a | ⟨a, b⟩)
+    · exact ⟨hs, Or.inl a⟩
+    · exact ⟨hs, Or.inr ⟨⟨a, hp.mpr b⟩, Or.inr (hp.mpr b)⟩⟩
+  · rintro ⟨_, (a | ⟨⟨a, b⟩, _⟩)⟩
+    · exact Or.inl a
+    · exact Or.inr ⟨a, hp.mp b⟩
+
+/-- a buffer satisfying the model invariant is valid in the library's sense -/
+theorem BufOk.isValid {h : Heap} {b : Buf} (hb : BufOk h b) : b.isValid = true := by
+  obtain ⟨h1, _, h3⟩ := hb
+  unfold Buf.isValid
+  cases hr : b.rid with
+  | none =>
+    simp only [hr] at h3
+    have : b.len = 0 := by omega
+    simp [h3, this]
+  | some r =>
+    simp only [hr] at h3
+    simp [h3.1, h1]
+
+/-- a cursor satisfying the model invariant is valid in the library's sense -/
+theorem CurOk.isValid {h : Heap} {c : Cur} (hc : CurOk h c) : c.isValid = true := by
+  obtain ⟨_, h2⟩ := hc
+  unfold Cur.isValid
+  cases hr : c.rid with
+  | none => simp only [hr] at h2; simp [h2]
+  | some r =>
+    by_cases h0 : c.len = 0
+    · simp [h0]
+    · have : c.len > 0 := by omega
+      simp [this]
+
 /-! checked / saturating arithmetic (generated from math.inl + math.gcc_overflow.inl) -/
 def resOfOption : Option Nat → CSem.Res
   | some v => .ok v
